@@ -618,6 +618,9 @@ class OopStateEngine(EngineBase):
             self._kepler_oracle(hist, i, label, viol, bump, ride=False)
             if blocking:
                 break
+            self._dynamics_oracle(hist, cfg, i, label, viol, bump)
+            if blocking:
+                break
         sets['flag_paths'] = sorted(OopStateEngine._flag_paths)
         res = self._result(plan, violations, counters, sets, harness_errors, trace, n_applied)
         return res
@@ -751,6 +754,69 @@ class OopStateEngine(EngineBase):
         if d:
             viol('functional-api', 'functional-api-differs', 'after step %d %s the objects disagree with quick_tidal_dissipation evaluated at the '
                  'same state: %s' % (i, label, '; '.join('%s %s' % (p_ or '/tidal_heating', m_) for p_, m_ in d[:3])))
+
+    def _dynamics_oracle(self, s, cfg, i, label, viol, bump):
+        """C13's last clause for the orbital and spin derivatives: what the orbit / world report equals the functional API
+        (TidalPy.dynamics) evaluated at the state and the potential derivatives the objects expose - dual-body formulas
+        when the host has its own potentials and this world raises its tides, single-body ones otherwise.  Calibrated per
+        configuration class like the other functional oracle (a disagreement on first contact, where history == twin has
+        just been shown, is a pure-input discrepancy and switches the clause off for that class)."""
+        try:
+            from TidalPy.dynamics import semia_eccen_derivatives, semia_eccen_derivatives_dual, spin_rate_derivative
+        except Exception:
+            bump('probe:dynamics_oracle_unavailable')
+            return
+        if not hasattr(self, '_dynamics_ok'):
+            self._dynamics_ok = {}
+        o, h = s.orbit, s.host
+        for wi, w in enumerate(s.worlds):
+            a, n, e = w.semi_major_axis, w.orbital_frequency, w.eccentricity
+            if a is None or n is None or e is None or w.dUdM is None or w.dUdw is None:
+                continue
+            try:
+                da, de, dn = (o.get_semi_major_axis_time_derivative(w), o.get_eccentricity_time_derivative(w),
+                              o.get_orbital_motion_time_derivative(w))
+            except Exception:
+                continue
+            if da is None or de is None:
+                continue
+            key = (cfg['model'], cfg.get('host'), bool(cfg.get('host_tides')), len(s.worlds), wi)
+            ok = self._dynamics_ok.get(key)
+            if ok is False:
+                bump('probe:dynamics_oracle_disabled')
+                continue
+            host_active = bool(getattr(h, 'tides_on', False)) and getattr(h, 'tides', None) is not None and \
+                getattr(h, 'dUdM', None) is not None and w is getattr(o, 'host_tide_raiser', None)
+            try:
+                if host_active:
+                    fa, fe = semia_eccen_derivatives_dual(a, n, e, h.mass, h.dUdM, h.dUdw, w.mass, w.dUdM, w.dUdw)
+                else:
+                    fa, fe = semia_eccen_derivatives(a, n, e, w.mass, w.dUdM, w.dUdw, h.mass)
+                fn_ = -1.5 * (n / a) * fa
+                d = [('/da_dt', x[1]) for x in system.compare(da, fa, rtol=1e-9)]
+                d += [('/de_dt', x[1]) for x in system.compare(de, fe, rtol=1e-9)]
+                d += [('/dn_dt', x[1]) for x in system.compare(dn, fn_, rtol=1e-9)]
+                if w.dUdO is not None and getattr(w, 'moi', None) is not None:
+                    d += [('/spin_derivative', x[1]) for x in
+                          system.compare(w.calc_spin_derivative(), spin_rate_derivative(w.dUdO, w.moi, h.mass), rtol=1e-9)]
+            except Exception as ex:
+                self._dynamics_ok[key] = False
+                bump('probe:dynamics_oracle_call_failed_' + type(ex).__name__)
+                continue
+            if ok is None:
+                self._dynamics_ok[key] = not d
+                if d:
+                    bump('probe:dynamics_oracle_disabled')
+                continue
+            bump('probe:dynamics_oracle_checks')
+            if host_active:
+                bump('probe:dynamics_oracle_dual_body')
+            if d:
+                viol('functional-api', 'dynamics-differs', 'after step %d %s the orbital / spin derivatives reported for %s disagree with '
+                     'TidalPy.dynamics evaluated at the same state (%s-body): %s' %
+                     (i, label, 'the world' if wi == 0 else 'companion %d' % wi, 'dual' if host_active else 'single',
+                      '; '.join('%s %s' % (p_, m_) for p_, m_ in d[:3])))
+                return
 
     @staticmethod
     def _call_quick(fn, kw, w, cfg):
